@@ -312,7 +312,7 @@ PROOFS = {
     "long_jump": "ext_tie_jump", "from_seed": "ext_tie_seed", "seed_from_u64": "ext_tie_seed",
     # rand_hc / rand_isaac: see the proof scripts below (bridge lemmas: Rngs/Lib/ExtTieBlock.lean, ExtTieShapes.lean)
     "hc_step_p": "ext_tie_hc_step", "hc_step_q": "ext_tie_hc_step",
-    "core_eq": "ext_tie_core_eq", "isaac_ind": "ext_tie_isaac_ind", "isaac_rngstep": "ext_tie_isaac_step", "isaac_mix": "ext_tie_isaac_step",
+    "core_eq": "ext_tie_core_eq", "isaac_ind": "ext_tie_isaac_ind", "isaac_mix": "ext_tie_isaac_step",
 }
 
 # ---- proof scripts of the block generators.  Each is `first | fast path | generic path`: the fast path rewrites the model side
@@ -351,7 +351,8 @@ def proof_hc_init(name):
             "\n  have h16 : Ext.Hc128Core.sixteen_steps = Hc128.sixteenSteps := funext ExtTie.Hc128Core.sixteen_steps"
             "\n  simp only [Ext.Hc128Core.init" + _unf("Hc128Core") + ", ExtTie.Hc128Fns.f1, ExtTie.Hc128Fns.f2, h16, Hc128.init, foldl_range'_add, ← BitVec.ofNat_add,"
             "\n    Hc128.expandAt, Nat.reduceAdd, Nat.reduceSub, List.take, List.drop, List.cons_append, List.nil_append, List.foldl_cons,"
-            "\n    List.foldl_nil, BitVec.ofNat_eq_ofNat]")
+            "\n    List.foldl_nil, BitVec.ofNat_eq_ofNat, wr_wr_sort, wr_wr_same, Nat.reduceLT]"
+            "\n  first | done | rfl")
 
 def proof_hc_from_seed(name):
     return ("\n  intro seed"
@@ -391,6 +392,17 @@ HEAVY = {"hc_generate": 2000000, "hc_sixteen_steps": 2000000}
 PROOFS.update({"hc_generate": proof_hc_generate, "hc_sixteen_steps": proof_hc_sixteen, "hc_init": proof_hc_init,
                "hc_from_seed": proof_hc_from_seed, "isaac_generate": proof_isaac("generate"), "isaac_init": proof_isaac("init"),
                "isaac_from_seed": proof_isaac("from_seed"), "isaac_seed_from_u64": proof_isaac("seed_from_u64")})
+def proof_isaac_rngstep(name):
+    """`rngstep`: the two lookups go through the correspondence theorem of `ind` (its side condition `amount < w` is
+    discharged on the literal amounts), then both sides are the same term up to the association of `+`"""
+    G = name.split(".")[0]
+    w = 64 if "64" in G else 32
+    return (f"\n  intros"
+            f"\n  simp only [Ext.{G}.rngstep{_unf(G)}, ExtTie.{G}.ind, Isaac.rngstep, Isaac.params{w}, Isaac.RAND_SIZE, Isaac.RAND_SIZE_LEN,"
+            f"\n    Nat.reduceAdd, Nat.reduceLT, Nat.reduceSub, BitVec.add_assoc]"
+            f"\n  first | done | rfl | ac_rfl")
+PROOFS["isaac_rngstep"] = proof_isaac_rngstep
+
 def _proof_from_rng(name):
     return proof_isaac(name.split(".")[1])(name)
 PROOFS["isaac_from_rng"] = _proof_from_rng
@@ -653,6 +665,7 @@ def build_units_hc(repo):
     cm.update(ms)              # f1, f2 are called by init; their definitions are those of the unit Hc128Fns
     u = Unit("Hc128Core", sinfo, cm, consts, macros, prims, "Rngs.Ext.Hc128Core", aliases, vals)
     u.extern = {n: "Rngs.Ext.Hc128Fns." + n for n in ms}
+    u.sort_acc = True
     u.shape, u.seed_len, u.file = ("Hc128Core", 32), 32, "rand_hc/src/hc128.rs"
     yield u, ["step_p", "step_q", "generate", "sixteen_steps", "init", "from_seed", "eq"]
 
@@ -766,6 +779,7 @@ def build_units_isaac(repo):
                      "read_u64_into": prim_read_into(64), "le::read_u64_into": prim_read_into(64), "@bytes_types": ()}
             u = Unit(sname, sinfo, methods, consts, macros, prims, f"Rngs.Ext.{sname}", aliases, vals)
             u.shape, u.seed_len, u.file, u.width = (sname, w), 32, f"rand_isaac/src/{fname}.rs", w
+            u.sort_acc = True
             yield u, ["ind", "rngstep", "generate", "mix", "init", "from_seed", "seed_from_u64", "from_rng", "try_from_rng", "eq"]
         except Exception as e:
             yield None, (sname, repr(e))
